@@ -14,6 +14,7 @@ for d in sorted(glob.glob(os.path.join(ROOT, "seeded", "C*-*"))):
     sid = os.path.basename(d); pid = sid.split("-")[0]
     if only and sid not in only: continue
     if pid not in claimed: continue
+    if not os.path.exists(os.path.join(d, "patch.diff")): continue   # superseded (see SUPERSEDED.md)
     t0 = time.time()
     p = subprocess.run(["sh", "lib/trymut.sh", os.path.join(d, "patch.diff"), pid, tier], cwd=ROOT,
                        stdout=subprocess.PIPE, stderr=subprocess.STDOUT, text=True)
